@@ -232,6 +232,51 @@ WHAT.update({
 })
 
 
+# fifth wave: as the fourth (eight earlier changes per property listed as taken)
+WHAT.update({
+ "W5C01_A": ("C01", "safe interface's stochastic-volume loop resets its 'rate is zero' flag once per call instead of once per reaction", "safe + stochastic + volume, >= 2 reactions, an earlier-listed reaction short of a reactant"),
+ "W5C01_B": ("C01", "repressing Hill laws rewritten as rate * (1 - occupancy) (cancels when occupancy is near 1)", "a repressing Hill type at (s/K)^n >= 1e7"),
+ "W5C02_A": ("C02", "PowerTerm.evaluate clamps a negative base to 0 (non-volume path only)", "a power (or a division) whose base is negative at the evaluation point"),
+ "W5C02_B": ("C02", "GeneralODERule loses its rule_volume_operation override (volume reads 1 on the volume path)", "an ODE rule whose rate mentions volume, V != 1"),
+ "W5C03_A": ("C03", "Model.__init__ resets the delay fields once before the reaction loop (a 4-tuple inherits the previous 8-tuple's delay)", "a reactions= list with a plain reaction after a delayed one"),
+ "W5C03_B": ("C03", "Model.__getstate__ swaps the two 'next free index' counters", "copy or pickle, then a reaction introducing a new species / parameter"),
+ "W5C04_A": ("C04", "derivative buffer kept between runs and species with empty stoichiometry rows skipped (stale derivative entries)", "a catalyst / inert species and an earlier deterministic run with the same species count in the same process"),
+ "W5C04_B": ("C04", "safe interface's deterministic derivative never resets its 'species at zero' flag", "safe=True, a species at exactly 0 listed before a consumed one"),
+ "W5C05_A": ("C05", "MassActionPropensity counts multiplicities with itertools.groupby (adjacent repeats only)", "mass action of order >= 3 written A + B + A, stochastic modes"),
+ "W5C05_B": ("C05", "VolumeSSASimulator records at most one requested time per step (if instead of while)", "requested times closer together than the simulator's volume tick"),
+ "W5C06_A": ("C06", "VolumeSSASimulator truncates a divided result one row too late (an unwritten row of zeros)", "a volume object that divides inside the grid"),
+ "W5C06_B": ("C06", "safe interface resets negative counts to zero in the live state", "safe + delay simulator, a delayed reactant over-drawn by queued completions"),
+ "W5C07_A": ("C07", "time-point buffers declared C-contiguous in the plain and delay simulators", "a strided / column time grid, stochastic without volume"),
+ "W5C07_B": ("C07", "Model.get_species_list returns a cached list object", "a caller that edits the returned list before asking for a data frame"),
+ "W5C08_A": ("C08", "SSASimulator adds the delayed stoichiometry into the model's own matrix in place", "a delay model simulated twice with the plain simulator"),
+ "W5C08_B": ("C08", "the ODE right-hand side works on the interface prepared last, not the one being simulated", "prepare interface A, prepare interface B, simulate A deterministically"),
+ "W5C09_A": ("C09", "delay simulator's tie-break between a queue tick and a grid point (<= instead of <) skips the dt rules of that step", "delay simulator, a dt / ODE rule, a queue tick bit-equal to a grid point"),
+ "W5C09_B": ("C09", "py_simulate_model no longer sets dt on a passed-in interface", "Interface= instead of Model=, an ODE rule, a grid step other than 0.01"),
+ "W5C10_A": ("C10", "create_reaction builds the delayed-product coefficient from the immediate one", "a delayed product that also changes immediately, or is listed twice"),
+ "W5C10_B": ("C10", "DelaySSASimulator skips the delay draw for reactions without a delayed *product*", "a delayed part consisting of delayed reactants only"),
+ "W5C11_A": ("C11", "BimolecularPropensity loses its stochastic-volume override (A*A/V instead of A*(A-1)/V)", "2A -> ..., volume-aware stochastic simulator"),
+ "W5C11_B": ("C11", "volume_simulate writes the volume back to the volume object at the top of the loop (one step lost per call)", "one cell followed in several consecutive calls with the same volume object"),
+ "W5C12_A": ("C12", "the rule_frequency annotation is only written for non-repeated rules and the importer's default is set once before the loop", "a repeated rule listed after a start / dt / timed rule"),
+ "W5C12_B": ("C12", "general rate laws written with KineticLaw.setFormula (Level 1 grammar)", "a general rate with a unary minus directly in front of a power"),
+ "W5C13_A": ("C13", "import_sbml_parameters clamps values with fmax(value, 0)", "a negative global parameter"),
+ "W5C13_B": ("C13", "parsed SBML documents cached by file name", "the same path read again after the file was rewritten"),
+ "W5C14_A": ("C14", "add_parameter writes the value only if it is truthy (a zero is left unset)", "a parameter that is exactly 0"),
+ "W5C14_B": ("C14", "create_reaction records the definition before _add_reaction can refuse it (phantom reaction in the export)", "a refused create_reaction call, then an export"),
+ "W5C15_A": ("C15", "the deterministic likelihood takes the absolute residual only for p = 1", "an odd norm order >= 3 and a negative residual"),
+ "W5C15_B": ("C15", "extract_data shifts each trajectory's time grid to start at 0 (list of data frames)", ">= 2 trajectories, a time column that does not start at 0, a time-dependent model"),
+ "W5C16_A": ("C16", "the 'positive' flag is stripped in place from the caller's prior dictionary", "a second interface built from the same prior dictionary"),
+ "W5C16_B": ("C16", "gamma prior computes rate**shape with np.power (wraps in int64)", "shape and rate written as Python ints with rate**shape >= 2**63"),
+ "W5C17_A": ("C17", "reaction_list dropped from the pickle and zipped back from lists that are only parallel while initialised", "a model copied while uninitialised (or edited since its initialisation)"),
+ "W5C17_B": ("C17", "MassActionPropensity gets pickling hooks that restore num_species as the number of distinct reactants", "order >= 3 with a repeated reactant, V != 1, on a copy"),
+ "W5C18_A": ("C18", "_evaluate_model no longer copies the state (repeated rules write into the caller's work array)", "rules whose single pass is not idempotent (a rule listed before the one it reads)"),
+ "W5C18_B": ("C18", "PositiveHillPropensity remembers (X/K)**n while X/K is unchanged", "sensitivity to a Hill exponent n"),
+ "W5C19_A": ("C19", "an idle lineage cell without a growth rule jumps to the final time (division / death rules not re-checked)", "total propensity zero, no volume rule, a time-dependent division rule"),
+ "W5C19_B": ("C19", "binom_rnd_f truncates the count instead of rounding it", "a binomially partitioned amount just below a whole number"),
+ "W5C20_A": ("C20", "add_reaction's rounding half-step moved inside the division (half a time unit instead of half a slot)", "a grid step other than 1"),
+ "W5C20_B": ("C20", "advance_time recomputes the next tick as a multiple of dt", "a starting time that is not a multiple of dt"),
+})
+
+
 def parse_log(path):
     confirm, runs = {}, {}
     for line in open(path, errors="replace"):
